@@ -1,2 +1,1 @@
-import SMD.Properties.C15
 import SMD.Properties.C17
